@@ -113,18 +113,15 @@ class JSONPathRecursiveDescentSegment(JSONPathSegment):
 
         while queue:
             node, depth = queue.popleft()
+            self._raise_for_depth(node, depth)
             yield node
-
-            if depth >= self.env.max_recursion_depth:
-                raise JSONPathRecursionError(
-                    "recursion limit exceeded", token=self.token
-                )
 
             # Randomly choose to visit child nodes now or queue them for later?
             visit_children = random.choice([True, False])  # noqa: S311
 
             for child in _nondeterministic_children(node):
                 if visit_children:
+                    self._raise_for_depth(child, depth + 1)
                     yield child
 
                     # Queue grandchildren by randomly interleaving them into the
@@ -146,6 +143,13 @@ class JSONPathRecursiveDescentSegment(JSONPathSegment):
                     )
                 else:
                     queue.append((child, depth + 1))
+
+    def _raise_for_depth(self, node: JSONPathNode, depth: int) -> None:
+        """Apply the same limit as `_visit`: only containers count, all of them."""
+        if depth >= self.env.max_recursion_depth and isinstance(
+            node.value, (dict, list)
+        ):
+            raise JSONPathRecursionError("recursion limit exceeded", token=self.token)
 
     def __str__(self) -> str:
         return f"..[{', '.join(str(itm) for itm in self.selectors)}]"
